@@ -99,6 +99,11 @@ CHECKS = {
         note="Loop harness bounds: N=2 (quick) / N<=3 (thorough) particles, d=1, <=2 (quick) / <=4 (thorough) iterations, schedules fixed 1/2(/4), adaptive with min_step 1/2 (and max_n_steps, unbounded in thorough; paths reaching the unrolling bound are counted as cut); user functions, proposal, generator and MCMC kernels are stubs (uninterpreted functions / symbolic streams / fake kernel modules); SMCSampler.sample is a logging-stripped copy of the current source with beta_tolerance 1/4. Flow construction/training seeds (torch.manual_seed, JAX keys) and third-party kernels are outside; known finding C20-D10.",
         ref="6/C20",
     ),
+    "C13": dict(
+        text="Partial (transforms and configuration). The real save / load code (BaseTransform.save/load, _save_state/_load_state, config_dict, recursively_save_to_h5_file, load_from_h5_file, encode/decode_for_hdf5, encode/decode_dtype, Aspire.save_config/config_dict/resume_from_file/_build_aspire_from_file) runs against a hybrid container -- a real in-memory h5py file for every concrete value, name, group, attribute and string, a side table for array payloads with symbolic cells. For CompositeTransform with every combination of periodic / logit / probit / affine parts, FlowTransform and AffineTransform, with symbolic bounds lower<upper, symbolic fitted affine state and symbolic evaluation points (inside the bounds; for the bounded parts also anywhere between the bounds, clipping margin included): the reloaded transform has the saved settings (parameters, periodic parameters, bounded kind, a non-default eps, precision, namespace), the saved bounds and fitted state, and reproduces the SAME forward and inverse map (value and log-Jacobian). For Aspire: the instance rebuilt by the real resume_from_file from what save_config wrote has the saved settings (dims, parameters, periodic parameters, bounds for all values, bounded options, flow back-end and flow options, eps, namespace, precision).",
+        note="NOT decided: sample sets and histories (their save path converts to NumPy first, which realises symbolic arrays; their dict and pickle round trips are C16), flows and neural-network weights (torch / equinox serialisation), what h5py does to concrete array payloads (float width on disk, encodings) -- those need concrete I/O runs, a different technique. Stub: h5py returns a float array as stored. d=2 (thorough d=3), batch 1-2.",
+        ref="6/C13, 12.7",
+    ),
     "C15": dict(
         text="Partial (precision and conversion plumbing). (1) Whole runs of the real MiniPCNSMC / EmceeSMC sample() loop on the symbolic namespace, whose arrays carry a dtype tag that follows the Array-API promotion rules, with dtype='float32' (string and dtype object) requested at construction while the proposal, the user's functions and the kernel hand back float64: on every feasible path every population the sampler records in its history, hands to a checkpoint callback, restores from a checkpoint (bytes and the live dictionary, in a fresh sampler) and returns (with and without final enlargement) carries the requested width in the object and in every array it holds. (2) The namespace-generic conversion code of BaseSamples / Samples / SMCSamples (from_samples with and without dtype override and across classes, to_namespace with and without dtype, to_standard_samples, a selection followed by a conversion) with the symbolic namespace as source and target and every cell a distinct symbolic variable: same value in every cell of every field, every optional field kept (per-sample fields, temperature, attached evidence), requested / inherited float width.",
         note="What NumPy, PyTorch and JAX themselves do when an array crosses from one library to another (DLPack, device moves, the three libraries' dtype objects) for every ordered pair, the sampling call's output-namespace option and proposal outputs consumed in another namespace are NOT decided: they are concrete C-implemented conversions with nothing symbolic to quantify over; this check only decides the part of C15 that lives in aspire's own namespace-generic Python code. Loop-harness bounds as for C08 (N=2, d=1, <=2 iterations quick / <=3 thorough; schedules fixed2, adaptive_half (+fixed1 thorough)); API family N=3, d=2. Known findings C15-F2 (SMCSamples.to_namespace drops beta and evidence) and C15-F3 (conversion of a selection recomputes the evidence) are listed in known_findings.json.",
@@ -112,7 +117,6 @@ CHECKS = {
 }
 
 NA = {
-    "C13": "Every round trip goes through h5py/torch/equinox conversions invisible to a solver, the varying inputs are a finite set of structural configurations, and CrossHair cannot exhaust the one pure-Python slice (probed twice: 'Not confirmed' after 600 s). Needs concrete I/O runs, a different technique.",
 }
 
 PENDING = "check not built yet (build in progress; planned in DESIGN.md section 6)"
